@@ -146,8 +146,13 @@ def analyse(ctx: Ctx, classes: dict, decorators: dict | None, where: str, rel: s
             ctx.check(ok, "derived-operators", case, "derived <, <=, >=, != disagree with the tuple order", rel)
     ctx.floor(f"{where}: position pairs", n, 256)
     # foreign operands
+    # look-alikes: objects of another class that carry the same attribute names with equal values (a namedtuple, a
+    # SimpleNamespace, CallHierarchyItem with its uri/range): equality is by class, not by shape
+    lookalikes = (("lookalike-position", Record("Other", {"line": 1, "character": 2}, classes)),
+                  ("lookalike-range", Record("Other", {"start": P(0, 0), "end": P(1, 1)}, classes)),
+                  ("lookalike-location", Record("Other", {"uri": "u", "range": R(P(0, 0), P(1, 1))}, classes)))
     for label, other in (("foreign-object", Record("Other", {}, classes)), ("int", 5), ("none", None),
-                         ("tuple", (1, 2)), ("range", R(P(0, 0), P(0, 1)))):
+                         ("tuple", (1, 2)), ("range", R(P(0, 0), P(0, 1)))) + lookalikes:
         for cls, meths, mk in (("Position", tuple(["__eq__", "__gt__"] + [h for h in handwritten if h != "__ne__"]), P(1, 2)),
                                ("Range", ("__eq__",), R(P(0, 0), P(1, 1))),
                                ("Location", ("__eq__",), L("u", R(P(0, 0), P(1, 1))))):
